@@ -251,6 +251,32 @@ Proof.
   eapply plain_source_key_inside; eauto.
 Qed.
 
+(* any source: the test on the source's real directory was evaluated on s0 as well; new plain directories
+   do not change realpath, so it still speaks about the entry rename(2) takes away on the extension s *)
+Lemma source_inside_dir_ext s s1 f : dir_ext s s1 -> source_inside s f -> source_inside s1 f.
+Proof. intros E H. unfold source_inside. rewrite (realpath_raw_dir_ext _ _ _ _ E). exact H. Qed.
+
+Theorem confined_step_after_mkdir_any_source s0 s f np s' dpar dname :
+  chdir s0 (pf_dir f) = Some (pf_dir f) ->
+  contained fixed s0 f np = Some true ->
+  source_contained s0 f = Some true ->
+  dir_ext s0 s ->
+  resolve s (pf_dir f) (to_upath np) false = WMissing dpar dname ->
+  os_rename s (pf_dir f) (to_upath (pf_rel f)) (to_upath np) = SOk s' ->
+  is_prefix_path (pf_dir f) (dpar ++ [dname]) = true /\ changes_below (pf_dir f) s s'.
+Proof.
+  intros Hc0 Hin Hs0 E Hd H.
+  pose proof (chdir_dir_ext _ _ _ E Hc0) as Hc.
+  pose proof (source_inside_dir_ext _ _ _ E (source_contained_inside _ _ Hs0)) as Hs.
+  assert (Pd : is_prefix_path (pf_dir f) (dpar ++ [dname]) = true).
+  { rewrite <- (dest_realpath _ _ _ _ _ Hc Hd). rewrite (realpath_raw_dir_ext _ _ _ _ E).
+    apply contained_true_prefix. assumption. }
+  split; [assumption|].
+  destruct (os_rename_missing_dest _ _ _ _ _ _ _ Hd H) as [sp [sn [Rs ->]]].
+  apply rekey_changes_below; [|assumption].
+  exact (source_key_inside _ _ _ _ Hc Hs (os_rename_ok_not_bad_last _ _ _ _ _ H) Rs).
+Qed.
+
 Lemma shutil_move_free s cwd src dst :
   lexists s cwd dst = false -> shutil_move_fs s cwd src dst = os_rename s cwd src dst.
 Proof. intros H. unfold shutil_move_fs. rewrite (not_lexists_not_dir _ _ _ H). reflexivity. Qed.
@@ -328,18 +354,67 @@ Proof.
     exact (file_mover_confined _ _ _ _ _ _ Hc Hin Hpar Hp D).
 Qed.
 
+Lemma file_mover_confined_any_source flt w f np w' e :
+  chdir (w_fs w) (pf_dir f) = Some (pf_dir f) ->
+  contained fixed (w_fs w) f np = Some true ->
+  parents_contained (w_fs w) f np = Some true ->
+  source_contained (w_fs w) f = Some true ->
+  file_mover fixed flt w (pf_dir f) (pf_rel f) np false = (w', e) ->
+  changes_below (pf_dir f) (w_fs w) (w_fs w').
+Proof.
+  intros Hc Hin Hpar Hp. rewrite file_mover_fixed_unfold.
+  destruct (lexists (w_fs w) (pf_dir f) (to_upath np)).
+  { intros H. inversion H; subst. apply changes_below_refl. }
+  destruct (mkdir_p (S (length (pp_parts np))) flt w (pf_dir f) (pp_parent np)) as [w1 r1] eqn:MP.
+  destruct (mkdir_p_confined _ _ _ _ _ _ _ _ Hc (dir_ext_refl _) (parents_contained_ndi _ _ _ Hpar) MP) as [E1 C1].
+  destruct r1 as [e1|]; [intros H; inversion H; subst; assumption|].
+  destruct (lexists (w_fs w1) (pf_dir f) (to_upath np)) eqn:Hg.
+  { intros H. inversion H; subst. assumption. }
+  destruct (sys flt CMove w1 (shutil_move_fs (w_fs w1) (pf_dir f) (to_upath (pf_rel f)) (to_upath np))) as [w2 e2] eqn:Sy.
+  intros H. assert (Ew : w2 = w') by (destruct e2; inversion H; reflexivity). subst w2. clear H.
+  apply (changes_below_trans _ _ _ _ C1).
+  destruct (sys_fs _ _ _ _ _ _ Sy) as [Efs | [_ R]].
+  - rewrite Efs. apply changes_below_refl.
+  - rewrite (shutil_move_free _ _ _ _ Hg) in R.
+    destruct (resolve (w_fs w1) (pf_dir f) (to_upath np) false) as [dp dn|dpar dname|er] eqn:Rd.
+    + exfalso. exact (not_lexists_not_found _ _ _ Hg _ _ Rd).
+    + exact (proj2 (confined_step_after_mkdir_any_source _ _ _ _ _ _ _ Hc Hin Hp E1 Rd R)).
+    + exfalso. exact (os_rename_ok_dest_not_err _ _ _ _ _ _ R Rd).
+Qed.
+
+(* every mode, any source *)
+Theorem confined_renamer_step_all_modes_any_source c w f np w' e :
+  c_var c = fixed ->
+  chdir (w_fs w) (pf_dir f) = Some (pf_dir f) ->
+  contained (c_var c) (w_fs w) f np = Some true ->
+  parents_contained (w_fs w) f np = Some true ->
+  source_contained (w_fs w) f = Some true ->
+  renamer c w (pf_dir f) (pf_rel f) np false = (w', e) ->
+  changes_below (pf_dir f) (w_fs w) (w_fs w').
+Proof.
+  intros Hv Hc Hin Hpar Hp H.
+  destruct (c_dry c) eqn:Hdry.
+  { apply (confined_renamer_step_any_source c w f np w' e); auto. }
+  destruct (c_mode c) eqn:Hm;
+    try (apply (confined_renamer_step_any_source c w f np w' e); auto; right; rewrite Hm; discriminate).
+  rewrite Hv in Hin. revert H. unfold renamer, renamer_core. rewrite Hv, Hdry, Hm.
+  destruct (file_mover fixed (c_fault c) w (pf_dir f) (pf_rel f) np false) as [w1 [e1|]] eqn:D;
+    intros H; inversion H; subst; try rewrite add_report_fs;
+    exact (file_mover_confined_any_source _ _ _ _ _ _ Hc Hin Hpar Hp D).
+Qed.
+
 (* one whole step of first_pass for the head of the plan: whatever happens to this file (skipped, refused,
    renamed, deferred, error), the world handed on differs from the one before only at or below the file's
-   input directory *)
+   input directory.  No hypothesis on the source path: links, "..", an absolute relative_path -- the test on
+   the source's real directory (F32) and rename(2)'s own refusal of a trailing ".." cover them all *)
 Theorem first_pass_head_confined c f r w cwd bl :
   c_var c = fixed ->
   chdir (w_fs w) (pf_dir f) = Some (pf_dir f) ->
-  plain_source (w_fs w) f ->
   exists w1, changes_below (pf_dir f) (w_fs w) (w_fs w1) /\
     ((exists bl1, forall rest, first_pass c ((f, r) :: rest) w cwd bl = first_pass c rest w1 (pf_dir f) bl1) \/
      (exists e, forall rest, first_pass c ((f, r) :: rest) w cwd bl = (w1, pf_dir f, bl, Some e))).
 Proof.
-  intros Hv Hc Hp.
+  intros Hv Hc.
   destruct (generate (c_mode c) f r) as [np|ex] eqn:G.
   2:{ exists w. split; [apply changes_below_refl|]. right. exists ex. intros rest. cbn [first_pass]. rewrite Hc, G. reflexivity. }
   destruct (ppath_eqb np (pf_rel f)) eqn:Pe.
@@ -350,13 +425,16 @@ Proof.
   destruct (parents_contained (w_fs w) f np) as [[|]|] eqn:Pc.
   2:{ exists w. split; [apply changes_below_refl|]. right. eexists. intros rest. cbn [first_pass]. rewrite Hc, G, Pe, Ct, Pc. reflexivity. }
   2:{ exists w. split; [apply changes_below_refl|]. right. eexists. intros rest. cbn [first_pass]. rewrite Hc, G, Pe, Ct, Pc. reflexivity. }
+  destruct (source_contained (w_fs w) f) as [[|]|] eqn:Sc.
+  2:{ exists w. split; [apply changes_below_refl|]. right. eexists. intros rest. cbn [first_pass]. rewrite Hc, G, Pe, Ct, Pc, Sc. reflexivity. }
+  2:{ exists w. split; [apply changes_below_refl|]. right. eexists. intros rest. cbn [first_pass]. rewrite Hc, G, Pe, Ct, Pc, Sc. reflexivity. }
   destruct (renamer c w (pf_dir f) (pf_rel f) np false) as [w1 e1] eqn:Rn.
-  exists w1. split; [exact (confined_renamer_step_all_modes _ _ _ _ _ _ Hv Hc Ct Pc Hp Rn)|].
+  exists w1. split; [exact (confined_renamer_step_all_modes_any_source _ _ _ _ _ _ Hv Hc Ct Pc Sc Rn)|].
   destruct e1 as [ex|].
   - destruct (is_file_exists ex) eqn:Fe.
-    + left. eexists. intros rest. cbn [first_pass]. rewrite Hc, G, Pe, Ct, Pc, Rn, Fe. reflexivity.
-    + right. exists ex. intros rest. cbn [first_pass]. rewrite Hc, G, Pe, Ct, Pc, Rn, Fe. reflexivity.
-  - left. exists bl. intros rest. cbn [first_pass]. rewrite Hc, G, Pe, Ct, Pc, Rn. reflexivity.
+    + left. eexists. intros rest. cbn [first_pass]. rewrite Hc, G, Pe, Ct, Pc, Sc, Rn, Fe. reflexivity.
+    + right. exists ex. intros rest. cbn [first_pass]. rewrite Hc, G, Pe, Ct, Pc, Sc, Rn, Fe. reflexivity.
+  - left. exists bl. intros rest. cbn [first_pass]. rewrite Hc, G, Pe, Ct, Pc, Sc, Rn. reflexivity.
 Qed.
 
 (* ---------- non-vacuity: path mode through a symlinked directory, with ".." and two new directories ---- *)
